@@ -37,6 +37,12 @@ EXPLANATION = (
     "cluster_to_row, and that every constant top-level key added to a "
     "marker lookup by its writers is removed by the mapper before use.")
 
+EXPLANATION += (
+    ' Added after the seeded rounds: divisions by a cell count are '
+    'positive under the sign analysis; the merge rules of C09 are '
+    'evaluated here as well.'
+)
+
 RULE_TEXT = (
     "one obligation per (file kind, reader, required dataset), per "
     "provenance relation; non-trivial when the reader requires at least "
